@@ -261,6 +261,9 @@ impl Report {
 // ---------------------------------------------------------------- panic capture
 
 static LAST_PANIC: Mutex<Option<String>> = Mutex::new(None);
+/// the first panic since the last take: under a controlled scheduler the first panic is the cause,
+/// later ones are tasks being torn down
+static FIRST_PANIC: Mutex<Option<String>> = Mutex::new(None);
 static PANIC_COUNT: AtomicU64 = AtomicU64::new(0);
 
 /// Install a panic hook that records message + location instead of printing.
@@ -286,6 +289,11 @@ pub fn install_panic_capture() {
         if std::env::var("VERIF_PANIC_PRINT").is_ok() {
             eprintln!("panic: {msg} @ {loc}{bt}");
         }
+        if let Ok(mut g) = FIRST_PANIC.lock() {
+            if g.is_none() {
+                *g = Some(format!("{msg} @ {loc}{bt}"));
+            }
+        }
         if let Ok(mut g) = LAST_PANIC.lock() {
             *g = Some(format!("{msg} @ {loc}{bt}"));
         }
@@ -293,7 +301,14 @@ pub fn install_panic_capture() {
 }
 
 pub fn take_last_panic() -> Option<String> {
+    let _ = FIRST_PANIC.lock().map(|mut g| g.take());
     LAST_PANIC.lock().ok().and_then(|mut g| g.take())
+}
+
+/// the first panic since the last take (clears both records)
+pub fn take_first_panic() -> Option<String> {
+    let _ = LAST_PANIC.lock().map(|mut g| g.take());
+    FIRST_PANIC.lock().ok().and_then(|mut g| g.take())
 }
 
 pub fn panic_count() -> u64 {
